@@ -258,13 +258,20 @@ def bs_pricer(d):
                                  volatility=d.ul().volatility)
 
 
+_WEIGHTS = {}
+
+
 def generic_linear(n_in, n_out, seed, dtype, tag=0):
     """Linear layer with 'generic' weights fixed by the seed (no structure to cancel on)."""
+    key = (n_in, n_out, seed, tag)
+    if key not in _WEIGHTS:
+        g = torch.Generator().manual_seed(7919 * (seed + 1) + tag)
+        _WEIGHTS[key] = (torch.randint(-12, 13, (n_out, n_in), generator=g).to(torch.float32) / 16 + 1 / 32,
+                         torch.randint(-6, 7, (n_out,), generator=g).to(torch.float32) / 16)
     lin = torch.nn.Linear(n_in, n_out)
-    g = torch.Generator().manual_seed(7919 * (seed + 1) + tag)
     with torch.no_grad():
-        lin.weight.copy_(torch.randint(-12, 13, (n_out, n_in), generator=g).to(torch.float32) / 16 + 1 / 32)
-        lin.bias.copy_(torch.randint(-6, 7, (n_out,), generator=g).to(torch.float32) / 16)
+        lin.weight.copy_(_WEIGHTS[key][0])
+        lin.bias.copy_(_WEIGHTS[key][1])
     return lin.to(dtype)
 
 
@@ -272,9 +279,10 @@ def generic_linear(n_in, n_out, seed, dtype, tag=0):
 # the history system: one hedger, three derivatives
 # ----------------------------------------------------------------------------
 
-VARIANTS = ("mlp", "prev", "modout", "logfeat", "ww")
+VARIANTS = ("prev", "mlp", "logfeat", "modout", "ww")     # simplest first: first counterexample per signature is stored
 N_PATHS = (2, 3)
 #: (primary kind, derivative kind, declared dtype, number of time steps)
+H_DT = 1 / 250     # not dyadic: float32 and float64 renderings of times differ, a stale dtype is visible
 DERIVS = (("brownian", "european", "float32", 3),
           ("heston", "lookback", "float64", 4),
           ("local_vol", "european", "float32", 3))
@@ -289,7 +297,7 @@ def script_for(kind, T):
     sec = market.TWO_FACTOR.get(kind)
 
     def script(n_paths, time_horizon, init_state):
-        steps = int(round(time_horizon / market.DT)) + 1
+        steps = int(round(time_horizon / H_DT)) + 1
         assert steps == T, (steps, T)
         key = (kind, T, n_paths)
         if key not in _SCRIPTS:
@@ -315,8 +323,8 @@ class HWorld:
         self.seed = seed
         self.prims, self.derivs, self.sims = [], [], []
         for kind, dkind, dt, T in DERIVS:
-            p = market.primary(kind, dtype=DT[dt], cost=1 / 64)
-            kw = {"strike": 1.25}
+            p = market.primary(kind, dtype=DT[dt], cost=1 / 64, dt=H_DT)
+            kw = {"strike": 1.3}
             d = market.derivative(dkind, p, T=T, **kw)
             if variant == "logfeat":
                 d.list(lambda dd: dd.ul().spot, cost=1 / 128)     # pricer hands out the series itself
@@ -353,8 +361,13 @@ class HWorld:
             feats = getattr(m.inputs, "features", [])
             tgt = getattr(feats[0], "derivative", None) if feats else None
             bound = next((i for i, d in enumerate(self.derivs) if d is tgt), None)
+        # hidden state: the training flag (fit leaves the hedger in eval mode) and the *names* of everything
+        # stored on the hedger, its model, the derivatives and their underliers (anything cached on an object
+        # makes a new abstract state, so its futures are explored rather than merged away)
+        hidden = (bool(self.hedger.training), _names(self.hedger), _names(self.hedger.model),
+                  tuple(_names(d) for d in self.derivs), tuple(_names(p) for p in self.prims))
         return (tuple(ds), NAME.get(pd, str(pd)),
-                None if po is None else (tuple(po.shape), NAME.get(po.dtype, str(po.dtype))), bound)
+                None if po is None else (tuple(po.shape), NAME.get(po.dtype, str(po.dtype))), bound, hidden)
 
     # -- parameters -------------------------------------------------------------
     def state(self):
@@ -399,10 +412,13 @@ class HWorld:
         if kind in ("hedge", "pl", "input"):
             if not self.simulated(i):
                 return False
+            if kind == "input":
+                if self.variant in ("prev", "ww"):
+                    return False    # get_input binds features without a hedger: no prev_hedge there
+                if not self.aux:
+                    return True     # no module is evaluated: the hedger's parameter dtype is irrelevant
             if pd is not None and pd != self.data_dtype(i):
                 return False
-            if kind == "input" and self.variant in ("prev", "ww"):
-                return False        # get_input binds features without a hedger: no prev_hedge there
             return True
         if kind in ("loss", "price", "fit"):
             if kind == "fit" and pd is None:
@@ -445,6 +461,13 @@ class HWorld:
         self.last = out
         self.trace.append(op)
         return out
+
+
+def _names(obj):
+    out = sorted(k for k in vars(obj) if k not in ("dirty",))
+    for group in ("_buffers", "_parameters", "_modules"):
+        out += sorted(f"{group}.{k}" for k in (vars(obj).get(group) or {}))
+    return tuple(out)
 
 
 class _Donor:
@@ -508,9 +531,9 @@ def operations(variant, tier="thorough"):
                 ("sim", 0, 2), ("sim", 0, 3), ("sim", 1, 3), ("sim", 2, 2),
                 ("hto", "float64"), ("hto", "float32"),
                 ("dto", 0, "float64"), ("dto", 1, "float32"), ("dto", 2, "float64"), ("dto", 0, "float32"),
-                ("loss", 0, 2), ("loss", 1, 3), ("loss", 2, 2), ("price", 0, 3), ("price", 1, 3),
+                ("loss", 0, 2), ("loss", 1, 3), ("loss", 2, 2), ("price", 0, 3),
                 ("fit", 0, 2), ("fit", 1, 3),
-                ("input", 0, None), ("input", 1, 1), ("input", 2, None)]
+                ("input", 0, None), ("input", 2, 1)]
     ops = []
     for i in range(nd):
         ops.append(("hedge", i))
